@@ -1,9 +1,9 @@
 package main
 
 import (
-	"regexp"
 	"fmt"
 	"go/token"
+	"regexp"
 	"strings"
 
 	"golang.org/x/tools/go/ssa"
